@@ -258,7 +258,7 @@ def check_collect_str(run, F, helpers, fn):
     pc = F.crate("postcard")
     # the two local fmt::Write impls
     ws = [f for f in pc.fns if f.name == "write_str" and (f.impl_trait or "") == "core::fmt::Write"
-          and "ser::serializer" in f.canon]
+          and "/tests/" not in (f.file or "") and "::test" not in f.canon]
     problems = []
     counter = None
     emitter = None
@@ -282,7 +282,7 @@ def check_collect_str(run, F, helpers, fn):
                 CT = e0["loc"][2]
     # provided methods of fmt::Write (write_char, write_fmt) must stay derived from write_str, or agree with it
     for o in pc.fns:
-        if (o.impl_trait or "") == "core::fmt::Write" and "ser::serializer" in o.canon and o.name != "write_str":
+        if (o.impl_trait or "") == "core::fmt::Write" and "/tests/" not in (o.file or "") and "::test" not in o.canon and o.name != "write_str":
             is_counter = o.impl_self == counter[0].impl_self
             okov = False
             if o.name == "write_char" and is_counter:
